@@ -90,15 +90,24 @@ def make_flaky_converter():
     return Flaky
 
 
-def build_app(asgi=False, flaky=False, variant=0):
+def build_app(asgi=False, flaky=False, variant=0, applock=False):
+    lock = TS.CoopLock() if applock else None      # an application-level lock (cooperative under the controlled scheduler)
+
     class Mw:
         def process_request(self, req, resp):
             req.context.tok = req.get_header('X-Tok')
+            if lock is not None and req.get_header('X-Lock') == 'hold':
+                # e.g. a per-tenant critical section held for the whole request
+                lock.acquire()
+                req.context.holds = True
             # applications do annotate the per-request objects falcon hands them
             req.params['stamp'] = req.get_header('X-Tok')
 
         def process_response(self, req, resp, resource, req_succeeded):
             resp.set_header('X-Echo', str(getattr(req.context, 'tok', None)))
+            if getattr(req.context, 'holds', False):
+                req.context.holds = False
+                lock.release()
 
     class AMw:
         async def process_request(self, req, resp):
@@ -199,6 +208,14 @@ def build_app(asgi=False, flaky=False, variant=0):
     if flaky:
         app.router_options.converters['flaky'] = make_flaky_converter()
         app.add_route('/fl/{v:flaky}', Fl())
+    if applock and not asgi:
+        class Locked(BaseConverter):
+            # a converter that consults shared application state under the application's lock
+            def convert(self, value):
+                with lock:
+                    return 'lk:' + value
+        app.router_options.converters['locked'] = Locked
+        app.add_route('/lk/{v:locked}', Fl())
 
     # ---- requests that reconfigure the running app (an admin endpoint): a new route, a replaced media handler
     def marker_dumps(tok):
@@ -247,8 +264,11 @@ def build_app(asgi=False, flaky=False, variant=0):
     return app
 
 
-def gen_requests(rng, n, with_flaky=False, admin=False):
+def gen_requests(rng, n, with_flaky=False, admin=False, shared_accept=None):
     reqs = []
+    shared_range = None
+    if shared_accept or (shared_accept is None and rng.random() < 0.2):
+        shared_range = 'text/plain;format="s%06x"' % rng.randrange(1 << 24)
     kinds = ['items', 'users', 'files', 'err', 'items', 'miss', 'form', 'form', 'na', 'na']
     if admin:
         kinds = ['items', 'files', 'na', 'admin-route', 'admin-handler', 'dyn']
@@ -267,7 +287,12 @@ def gen_requests(rng, n, with_flaky=False, admin=False):
         esc = ''.join('%%%02X' % b for b in ('é' + tok).encode())          # >= 8 escapes: decode()'s long path
         q = rng.choice(['q=%s&l=a%d&l=b%d' % (tok, i, i), 'q=%s&l=a%d&l=b%d' % (esc, i, i), 'q=%s&l=%s' % (esc, esc),
                         '', 'q=same&l=x'])
-        headers = [('X-Tok', tok), ('Accept', rng.choice(['application/json', '*/*', 'text/plain;q=0.5, application/json']))]
+        accept = rng.choice(['application/json', '*/*', 'text/plain;q=0.5, application/json'])
+        if shared_range is not None:
+            # the requests of one set share ONE media range (never seen before in this process: it carries a quoted
+            # parameter with the set's token) but weigh the alternatives differently
+            accept = '%s;q=0.2, application/json;q=%s' % (shared_range, rng.choice(['0.5', '0.6', '0.7', '0.1']))
+        headers = [('X-Tok', tok), ('Accept', accept)]
         body = b''
         method = 'GET'
         if kind == 'items':
@@ -317,7 +342,7 @@ def wsgi_call(app, r):
     return (res.status, res.header('x-echo'), res.header('content-type'), res.body, tuple(res.problems))
 
 
-def serial_vectors(build, reqs, call, isolated=True):
+def serial_vectors(build, reqs, call, isolated=True, post=()):
     """Acceptable outcomes.  isolated: every request alone on its own fresh app (the generated apps keep no
     state of their own, so any order of one-at-a-time processing must give exactly these responses, and a request
     that sees anything of another request differs).  Otherwise (the app with a converter that fails once):
@@ -341,6 +366,8 @@ def serial_vectors(build, reqs, call, isolated=True):
                     vec[i] = call(app, reqs[i])
                 except TS.Deadlock as ex:
                     raise SerialDeadlock(str(ex), [reqs[j]['path'] for j in perm], reqs[i]['path'])
+            for r in post:
+                vec.append(call(app, r))
             out.add(tuple(vec))
     finally:
         TS.CoopLock.serial_mode = False
@@ -402,14 +429,14 @@ def coverage_marks(rec, sched):
             inside[w['idx']] = w['where'][0]
 
 
-def run_controlled(rec, sched, build, reqs, chooser, phase, accept=None, ref_build=None, isolated=True):
+def run_controlled(rec, sched, build, reqs, chooser, phase, accept=None, ref_build=None, isolated=True, post=()):
     app = build()
     fns = [(lambda r=r: wsgi_call(app, r)) for r in reqs]
     if accept is None:
-        accept = safe_serial(rec, ref_build or build, reqs, wsgi_call, isolated)
+        accept = safe_serial(rec, ref_build or build, reqs, wsgi_call, isolated, post)
         if accept is None:
             return None
-    wit = {'phase': phase, 'requests': [dict(r, body=r['body'].decode()) for r in reqs]}
+    wit = {'phase': phase, 'post': [r['method'] + ' ' + r['path'] for r in post], 'requests': [dict(r, body=r['body'].decode()) for r in reqs]}
     # observe where the other workers stand whenever somebody is scheduled (floors)
     orig = chooser
     preempted_in_router_find = set()      # workers switched away from while between the lines of CompiledRouter.find()
@@ -441,6 +468,10 @@ def run_controlled(rec, sched, build, reqs, chooser, phase, accept=None, ref_bui
         return None
     rec.count('mon.serial_equivalence.' + phase)
     vec = tuple(r[1] if r[0] == 'ok' else ('worker-raised', r[1]) for r in results)
+    for r in post:
+        # after the set is finished (quiescent): what it left behind must be what some serial order leaves behind
+        vec += (wsgi_call(app, r),)
+        rec.count('mon.follow_up_after_set')
     if vec not in accept:
         wit.update(trace=[t[0] for t in sched.trace if t[1] == 'run'][:600], got=vec,
                    serial=sorted(accept, key=repr)[0])
@@ -450,7 +481,7 @@ def run_controlled(rec, sched, build, reqs, chooser, phase, accept=None, ref_bui
             # narrow classifier: every request that differs from every serial outcome was switched away from while
             # standing between the lines of CompiledRouter.find() (finder loaded, side tables not yet) and a route
             # was added at run time by another request of the set
-            differing = [i for i in range(len(reqs)) if all(vec[i] != a[i] for a in accept)]
+            differing = [i for i in range(len(vec)) if all(vec[i] != a[i] for a in accept)]
             if differing and all(i in preempted_in_router_find for i in differing):
                 known = K_FIND_TEAR
         wit.update(preempted_in_router_find=sorted(preempted_in_router_find))
@@ -552,9 +583,9 @@ def run_asgi_schedule(rec, st, build, reqs, pick, accept):
 
 # ------------------------------------------------------------------ run
 
-def safe_serial(rec, build, reqs, call, isolated=True):
+def safe_serial(rec, build, reqs, call, isolated=True, post=()):
     try:
-        return serial_vectors(build, reqs, call, isolated)
+        return serial_vectors(build, reqs, call, isolated, post)
     except SerialDeadlock as ex:
         rec.violation('request-never-completes-even-serially',
                       {'detail': ex.args[0], 'order': ex.args[1], 'stuck_request': ex.args[2]})
@@ -657,18 +688,28 @@ def run(rec):
     sched.install()
     try:
         # ---- phase A: exhaustive, preemption bounded
-        setups = [(2, 1, False, 0), (2, 2, False, 1), (2, 1, True, 0)]
+        setups = [(2, 1, False, 0), (2, 2, False, 1), (2, 1, True, 0), (2, 1, 'lock', 0)]
         if not quick:
-            setups += [(3, 1, False, 1), (3, 2, False, 0), (2, 2, True, 1), (3, 1, True, 0)]
+            setups += [(3, 1, False, 1), (3, 2, False, 0), (2, 2, True, 1), (3, 1, True, 0), (2, 2, 'lock', 1), (3, 1, 'lock', 0)]
         total_a = 0
         for si, (nthreads, maxp, flaky, variant) in enumerate(setups):
             base_rng = __import__('random').Random(1000 + si)          # same requests in every shard
+            applock = flaky == 'lock'
+            flaky = flaky is True
             reqs = gen_requests(base_rng, nthreads, with_flaky=flaky)
             if flaky:
                 reqs[0]['path'] = '/fl/first'
+            if applock:
+                # one request whose converter needs the application's lock, one that holds that lock from
+                # process_request to process_response (user code blocking inside the routing of a first request)
+                reqs[0].update(method='GET', path='/lk/' + dict(reqs[0]['headers'])['X-Tok'], body=b'')
+                reqs[0]['headers'] = [h for h in reqs[0]['headers'] if h[0] != 'Content-Type']
+                reqs[1].update(method='GET', path='/items/5/held', body=b'')
+                reqs[1]['headers'] = [h for h in reqs[1]['headers'] if h[0] != 'Content-Type'] + [('X-Lock', 'hold')]
+                rec.count('cls.application_lock_setups')
 
-            def build(flaky=flaky, variant=variant):
-                return build_app(False, flaky, variant)
+            def build(flaky=flaky, variant=variant, applock=applock):
+                return build_app(False, flaky, variant, applock=applock)
             accept = safe_serial(rec, build, reqs, wsgi_call, isolated=not flaky)
             if accept is None:
                 continue
@@ -716,13 +757,19 @@ def run(rec):
                 app = build_app(False, False, 0)
                 wsgi_call(app, warm)
                 return app
-            accept = safe_serial(rec, build_warm, reqs, wsgi_call, isolated=False)
+            # follow-up requests, one at a time after the set has finished: what the set left behind (the added
+            # route, the replaced handler) must be what some serial order leaves behind
+            post = []
+            for a in atoks:
+                post.append({'method': 'GET', 'path': '/items/dyn-' + a, 'query': 'q=after', 'headers': [('X-Tok', 'after-' + a)], 'body': b''})
+            post.append({'method': 'GET', 'path': '/items/3/after', 'query': 'q=after', 'headers': [('X-Tok', 'after'), ('Accept', 'application/json')], 'body': b''})
+            accept = safe_serial(rec, build_warm, reqs, wsgi_call, isolated=False, post=post)
             if accept is None:
                 continue
 
-            def once2(tape, mine, reqs=reqs, accept=accept, ri=ri, build_warm=build_warm):
+            def once2(tape, mine, reqs=reqs, accept=accept, ri=ri, build_warm=build_warm, post=post):
                 ch = BoundedChooser(tape, 1)
-                run_controlled(rec, sched, build_warm, reqs, ch, 'A2', accept)
+                run_controlled(rec, sched, build_warm, reqs, ch, 'A2', accept, post=post)
                 if mine:
                     key = ('A2', ri, tuple(c for _, c in tape.log))
                     rec.case(key)
@@ -781,6 +828,64 @@ def run(rec):
         rec.count('B.schedules', nb)
     finally:
         sched.uninstall()
+    # ---- phase S: no interleaving at all - the requests of a set one after the other on ONE app (both orders) must
+    #      get what each gets alone on a fresh app (process-wide caches keyed by header text, shared dicts, ...)
+    srng = __import__('random').Random(4242 + rec.shard)
+    for k in range(30 if quick else 300):
+        n = 2 + k % 2
+        reqs = gen_requests(srng, n, shared_accept=(k % 3 != 2))
+        for asgi in (False, True):
+            def sbuild(asgi=asgi, k=k):
+                return build_app(asgi, False, k % 4)
+            call = asgi_serial_call if asgi else wsgi_call
+            expect = tuple(call(sbuild(), r) for r in reqs)
+            for order in (list(range(n)), list(range(n - 1, -1, -1))):
+                app = sbuild()
+                got = [None] * n
+                for i in order:
+                    got[i] = call(app, reqs[i])
+                rec.count('mon.serial_equivalence.S')
+                if tuple(got) != expect:
+                    bad = [i for i in range(n) if got[i] != expect[i]]
+                    rec.violation('one-at-a-time-differs-from-alone', {
+                        'phase': 'S', 'asgi': asgi, 'order': order, 'requests': [dict(r, body=r['body'].decode()) for r in reqs],
+                        'first_bad': bad[0], 'got': got[bad[0]], 'alone': expect[bad[0]]})
+        rec.case(('S', k, tuple(r['path'] for r in reqs)))
+    # ---- phase S2: position independence.  Two requests that differ only in a weight share one header element whose
+    #      text is new to the process (a quoted parameter carrying a fresh token that nothing echoes); with the next
+    #      fresh token the same two requests come in the opposite order.  What a request gets must not depend on
+    #      whether it came first or second (whole-header caches would hide this from an in-process reference).
+    for k in range(8 if quick else 80):
+        for asgi in (False, True):
+            call = asgi_serial_call if asgi else wsgi_call
+            app = build_app(asgi, False, k % 4)
+            t1, t2 = ('p%d-%d-%d-%da' % (rec.seed, rec.shard, k, asgi), 'p%d-%d-%d-%db' % (rec.seed, rec.shard, k, asgi))
+            kinds = [
+                ('GET', '/items/7/sr', 'text/plain;format="%s";q=0.2, application/json;q=%s', None),
+                ('GET', '/err/409', 'application/xml;schema="%s";q=0.2, application/json;q=%s', None),
+                ('POST', '/users/00000001-0000-4000-8000-000000000001', 'application/json;v="%s";q=0.3, */*;q=%s',
+                 'application/json; v="%s"'),
+            ]
+            meth, path, acc, ctype = kinds[k % len(kinds)]
+
+            def mk(tok, q):
+                hs = [('X-Tok', 'sr'), ('Accept', acc % (tok, q))]
+                body = b''
+                if ctype:
+                    hs.append(('Content-Type', ctype % tok))
+                    body = b'{"n": [1, 2]}'
+                return {'method': meth, 'path': path, 'query': 'q=sr', 'headers': hs, 'body': body}
+            a1 = call(app, mk(t1, '0.5'))
+            b1 = call(app, mk(t1, '0.6'))
+            b2 = call(app, mk(t2, '0.6'))
+            a2 = call(app, mk(t2, '0.5'))
+            rec.count('mon.position_independence')
+            if a1 != a2 or b1 != b2:
+                rec.violation('response-depends-on-position', {
+                    'phase': 'S2', 'asgi': asgi, 'request': meth + ' ' + path, 'accept_template': acc,
+                    'first_then_second': [a1, b1] if a1 != a2 else [b2, a2], 'as_first': a1 if a1 != a2 else b2,
+                    'as_second': a2 if a1 != a2 else b1})
+        rec.case(('S2', k))
     # ---- phase D: unsupervised stress (real preemption, tiny switch interval)
     old = sys.getswitchinterval()
     sys.setswitchinterval(1e-6)
@@ -862,8 +967,12 @@ def run(rec):
     st.close()
     rec.floor('mon.serial_equivalence.A', 20)
     rec.floor('mon.serial_equivalence.A2', 20)
+    rec.floor('mon.follow_up_after_set', 20)
+    rec.floor('cls.application_lock_setups', 1)
     rec.floor('mon.serial_equivalence.B', 10)
     rec.floor('mon.serial_equivalence.D', 20)
+    rec.floor('mon.serial_equivalence.S', 100)
+    rec.floor('mon.position_independence', 10)
     rec.floor('mon.serial_equivalence.asgi', 30)
     rec.floor('mon.serial_equivalence.E', 20)
     rec.floor('E.yields_inside_asgi_request', 100)
